@@ -180,6 +180,13 @@ Definition after_cutoff (rep : trep) (cutoff : Q) (t : Q) : bool :=
   | TDate r => Qltb (cutoff * r) t
   end.
 
+(* the cutoff as it is given to the scorer: the reading of a clock (seconds since 1970-01-01T00:00:00 on that clock)
+   and the offset of that clock from UTC (0 for an aware UTC value, for epoch seconds, and for a naive value read in
+   a process whose zone is UTC; +18000 for +05:00, -28800 for -08:00, the zone's offset at that moment for a named
+   zone).  cutoff.timestamp() is the instant: reading - offset. *)
+Record cutoff_val := { c_wall : Q; c_off : Q }.
+Definition cut_instant (c : cutoff_val) : Q := c_wall c - c_off c.
+
 (* item_ids[mask].value_counts().reindex(items, fill_value=0) *)
 Definition tb_counts (ni : nat) (rep : trep) (cutoff : Q) (log : list logrow) : list nat :=
   let kept := filter (fun e => after_cutoff rep cutoff (snd e)) log in
